@@ -113,16 +113,13 @@ func (rt *runtime) newBoundFunctionObject(target *object, this Value, argumentLi
 
 // [[Construct]].
 func (fn bindFunctionObject) construct(argumentList []Value) Value {
-	obj := fn.target
-	switch value := obj.value.(type) {
-	case nativeFunctionObject:
-		return value.construct(obj, fn.argumentList)
-	case nodeFunctionObject:
-		argumentList = append(fn.argumentList, argumentList...)
-		return obj.construct(argumentList)
-	default:
-		panic(fn.target.runtime.panicTypeError("construct unknown type %T", obj.value))
-	}
+	// 15.3.4.5.2: [[Construct]] of the target with the bound arguments followed
+	// by the arguments of this call. (*object).construct raises the TypeError for
+	// a target without [[Construct]] (Math.max, a method) and handles a target
+	// that is itself a bound function.
+	args := make([]Value, 0, len(fn.argumentList)+len(argumentList))
+	args = append(append(args, fn.argumentList...), argumentList...)
+	return fn.target.construct(args)
 }
 
 // nodeFunctionObject.
